@@ -689,6 +689,18 @@ extend("C02",
        "are judged.",
        "getMasses is oracle-only; the core-level model comparison for the negative bond runs only in thorough.")
 
+extend("C18",
+       "A block design stacked at several axial positions keeps the attributes given for each position "
+       "(repeated_design_keeps_own_xs; tied by generated stacks with repeated designs whose per-position attributes coincide in all but "
+       "one, every block compared at its own index).", "")
+extend("C12",
+       "Linkage is decided on cold dimensions: stacks with tight cold gaps are linked at every temperature exactly as at Thot = Tinput "
+       "(tied against the model's cold-dimension linkage); long sequences of near-unity growth conserve mass to round-off; a raise out "
+       "of the real code on a valid assembly is a keyed failure.", "")
+extend("C06",
+       "For every crash point the error snapshot's address is judged against the reference schedule (also inside beginning-of-cycle "
+       "hooks of later cycles); labels are drawn from an alphabet with leading digits, dashes, 'n' and 'c'.", "")
+
 NOT_YET = {}
 
 ALL = [f"C{n:02d}" for n in range(1, 21)]
